@@ -140,6 +140,10 @@ func (p *Prog) Run(bs map[string]interface{}) Outcome {
 				}
 				cur[op.K] = list
 			}
+		case "randLen":
+			// the extended interpreter's _.randstr(): only its length
+			// (always 32) is kept, so the result stays deterministic
+			cur[op.K] = 32.0
 		case "propSet":
 			// writes into the step properties: no effect on the result
 		case "emit":
@@ -234,6 +238,8 @@ func (p *Prog) ES() string {
 			fmt.Fprintf(&sb, "if (Array.isArray(bs[%s]) && bs[%s].length > 0 && bs[%s][0] !== null && typeof bs[%s][0] === 'object' && !Array.isArray(bs[%s][0])) { bs[%s][0][%s] = %s; }\n", k, k, k, k, k, k, js(op.Keys[0]), js(op.V))
 		case "matchStore":
 			fmt.Fprintf(&sb, "bs[%s] = _.match(%s, (bs[%s] === undefined ? null : bs[%s]), {});\n", k, js(op.V), js(op.Keys[0]), js(op.Keys[0]))
+		case "randLen":
+			fmt.Fprintf(&sb, "bs[%s] = _.randstr().length;\n", k)
 		case "propSet":
 			if op.K == "lst" {
 				fmt.Fprintf(&sb, "if (_.props && Array.isArray(_.props.lst) && _.props.lst.length > 1 && _.props.lst[1] && typeof _.props.lst[1] === 'object') { _.props.lst[1][%s] = %s; }\n", js(op.Keys[0]), js(op.V))
@@ -344,7 +350,7 @@ func (p *Prog) Native(mode NativeMode) core.Action {
 // Interp names the interpreter the ECMAScript rendering needs: the
 // plain one, or the extended one for programs that use its helpers.
 func (p *Prog) Interp() string {
-	if p.Has("matchStore") {
+	if p.Has("matchStore", "randLen") {
 		return "ecmascript-ext"
 	}
 	return "ecmascript"
